@@ -238,6 +238,8 @@ def run(tier):
 
     P.hooks.append(hook)
     P.run()
+    from harness import probes
+    probes.conversion_extra_probe(R)
     header = P.header() + HEADER_EXTRA
     # 1. the builder model is the implementation's builder
     T1 = "univ * dopts * bool * option constraints * ty * option (js * defs)"
